@@ -265,7 +265,7 @@ class C08(TreeSpec):
     judged = ("C08",)
     profile = "schedule"
     own_checks = ("idempotence", "freshness", "append_only", "beyond_now", "schedule_equivalence")
-    rule = TreeSpec.rule + "; every 3rd run is a flush-schedule twin: the same op history is executed once with a full observation (refreshing reads of every node) after every operation and once with none; the final history frames of every node must be byte-identical"
+    rule = TreeSpec.rule + "; every 3rd run is a flush-schedule twin: the same op history is executed once with a full observation (refreshing reads of every node) after every operation and once with none; the final history frames of every node must be byte-identical; after a quarter of the completed operations the tree is forked (two deep copies), one copy is read directly and the other after an explicit update - a seeded sequence of three property reads must agree bit for bit, whether or not the implementation has flagged the tree stale"
 
     def run(self, bt, plan):
         res = TreeSpec.run(self, bt, plan)
@@ -1470,6 +1470,16 @@ class C19(Spec):
             if r.random() < 0.5 and s.get("how") == "list":
                 s["how"] = r.choice(["dict", "parent", "parent"]) if s["name"] != plan["tree"]["name"] else "dict"
             s["algos"] = [{"a": "Spy", "id": 900}] + [a for a in s.get("algos", []) if a.get("a") not in ("Chaos", "SelectRandomly", "WeighRandomly")]
+        # a third level: a sub-strategy is pushed one level down under a new middle strategy that keeps its name (so whatever the
+        # top allocates to it still applies) and passes everything on - settings pushed from the top must travel two levels
+        subs = [c for c in plan["tree"]["children"] if c["k"] == "S"]
+        if subs and r.random() < 0.35:
+            old = r.choice(subs)
+            inner = dict(old, name="deep")
+            mid = {"k": "S", "name": old["name"], "cls": "Strategy", "fi": False, "how": r.choice(["list", "dict", "parent"]), "children": [inner],
+                   "algos": [{"a": "Spy", "id": 900}, drive_engine.sched_spec(r, plan["feed"]["dates"]), {"a": "SelectAll"}, {"a": "WeighEqually"}, {"a": "Rebalance"}]}
+            plan["tree"]["children"][plan["tree"]["children"].index(old)] = mid
+            plan.setdefault("fired", {})["three_levels"] = 1
         plan["cfg"]["obs_eod"] = False
         if plan["cfg"].get("comm") is None and r.random() < 0.5:
             plan["cfg"]["comm"] = {"kind": "prop", "rate": 0.001}
@@ -1621,10 +1631,20 @@ class C18(Spec):
     assumptions = ["thin fit for the formula part (a pure function of a finished history, said in DESIGN); the replay part is the family's own 'replay the recorded history, reach the same state'", "replay is judged for runs without commission (the transaction list does not carry fees)"]
 
     def gen(self, r, tier, i):
-        plan = drive_engine.gen_engine_plan(r, "mixed", tier)
+        k = i % 5
+        if k == 3 and (i // 5) % 2 == 0:
+            # a fixed-income book: every security type (notional accounting decides the weights)
+            plan = drive_engine.gen_fi_plan(r, tier)
+            plan["cfg"]["obs_eod"] = False
+        else:
+            plan = drive_engine.gen_engine_plan(r, "mixed", tier)
         for _p, s in drive_engine.trees.strategies(plan["tree"]):
             s["algos"] = [a for a in s.get("algos", []) if a.get("a") != "Chaos"]
-        k = i % 5
+        if k == 4:
+            # securities declared as objects of other node classes than the default one created from a string
+            for _p, x in drive_engine.trees.securities(plan["tree"]):
+                if x.get("decl") == "obj" and x.get("cls") == "Security" and r.random() < 0.6:
+                    x["cls"] = r.choice(["SecurityBase", "HedgeSecurity"])
         if k == 0:
             plan["cfg"]["comm"] = None
         if k == 1:
@@ -1799,6 +1819,11 @@ class C20(Spec):
             else:
                 others = [t for t in tickers if t not in tgt_names] or tickers
                 tab = {"kind": "table", "index": tgt_names, "cols": ["date", "target", "factor"], "data": [[between(k), r.choice(others), r.choice([1.0, 0.5, 2.0, 1.25])] for k in evd[: len(tgt_names)]], "datecols": ["date"]}
+                if len(tab["data"]) >= 2 and r.random() < 0.4:
+                    # two matured positions rolling into one target on the same date: their converted quantities add up
+                    tab["data"][1][0] = tab["data"][0][0]
+                    tab["data"][1][1] = tab["data"][0][1]
+                    fired["two_rolls_one_target"] = 1
                 extra["rd"] = tab
                 head = [{"a": "RollPositionsAfterDates", "args": ["rd"]}, {"a": "Spy", "id": 4}]
             if fam == "active":
